@@ -44,6 +44,19 @@ CHECKS.update({
          'must fold to the ExprInt the operators define (n-ary included).',
          'Trusts irsem. Memory bindings only at addresses already in evaluated form (overlap is C07).', '4 C06'),
 })
+CHECKS.update({
+ 'C01': ('exploration', 'bounded exhaustive enumeration of the opcode x ModRM x SIB x prefix space against reference decoders',
+         'Every string of S_x86 (prefix sets x 4 opcode maps x all 256 opcodes x all 256 ModRM x SIB classes x tails) is decoded by the real '
+         'x86mnemo.dis and by GNU objdump on the same padded slot; length, raw bytes and the normal form of the Intel rendering (mnemonic class, '
+         'operand kinds, registers, base/index/scale, displacement, segment, immediate, size keyword, branch displacement) are compared; a '
+         'difference counts only if llvm-mc does not side with miasmX. Strings rejected by either decoder or carrying a superfluous prefix are skipped.',
+         'Trusts GNU objdump 2.40 + llvm-mc 14 and the synonym/normal-form table in mc/x86ref.py. Tail bytes are fixed patterns.', '4 C01'),
+ 'C17': ('exploration', 'bounded exhaustive enumeration against a hand-written control-flow table and the target formula',
+         'Every string of S_x86 both decoders accept: breakflow/splitflow/dstflow against the IA-32 control-flow table (cross-checked per case with '
+         'objdump\'s mnemonic), getnextflow = offset + length; every direct relative form x boundary displacements x 20 instruction offsets up to '
+         '2^32-3 through a virtual 4 GiB stream: getdstflow = offset + length + sext(disp) mod 2^opsize.',
+         'Trusts the control-flow table in mc/props/c17.py and objdump for the cross-check.', '4 C17'),
+})
 PENDING = {}
 
 def main():
